@@ -40,7 +40,7 @@ CHECKS.update({
              "implementation; precision formatting (`{:.N}`, ties to even) is not used where ECMAScript picks the larger candidate (toFixed, "
              "toPrecision, toExponential do: known findings). The defects found on the pinned tree - saturating casts, 'infe-324' for 5e-324 and wrong "
              "digits above 1e21, (1e21).toString() without exponent - were reproduced and repaired (fix: commits). Radix output and the constants of the "
-             "notation thresholds are not decided. Also: no script number comes out of a 64-bit parse or an integer accumulator; constant-precision formatting is seen through the template bytes; the one-printer rule covers the whole interpreter (console output included).",
+             "notation thresholds are not decided. Also: no script number comes out of a 64-bit parse or an integer accumulator; constant-precision formatting is seen through the template bytes; the one-printer rule covers the whole interpreter (console output included). Script text becomes a double only through the designated readers (the == / Number.parseFloat defect was repaired, fix: commit).",
         ref="4/C15"),
 })
 
@@ -187,7 +187,7 @@ CHECKS.update({
              "were reproduced and repaired, fix: commit) and the JSON exporter refuses cycles (its recursion is dominated by the "
              "visited-set test and the set is restored); serialized JSON text is never rewritten by a structure-blind substitution. "
              "Fidelity of strings, numbers and ordering is a matter of values and is "
-             "not decided. Also: function-, symbol- and undefined-valued members (and symbol keys) are left out, each behind a test of what the value is; a double is written to a document as an integer only behind comparisons that keep it inside the integer type (the 2**63 defect was repaired, fix: commit).",
+             "not decided. Also: function-, symbol- and undefined-valued members (and symbol keys) are left out, each behind a test of what the value is; a double is written to a document as an integer only behind comparisons that keep it inside the integer type (the 2**63 defect was repaired, fix: commit). No consumer re-reads a string key as an index.",
         ref="4/C16"),
 })
 
